@@ -581,3 +581,68 @@ fn cmp_values(a: &Vector<Val>, b: &Vector<Val>, st: &Stage, out: &mut Option<Str
     }
 }
 
+
+// ---------------------------------------------------------------------------------------------
+// lazily converted subscriber handle
+
+use eyeball_im::VectorSubscriber;
+
+pub enum LazyState<I> {
+    Handle(VectorSubscriber<Val>, u8, Vec<MVal>),
+    Stream(BoxS<I>),
+    Empty,
+}
+
+/// Keeps the `VectorSubscriber` handle until the first poll, then converts it with the chosen
+/// method. `mismatch` is set if a late `into_values_and_*` snapshot differs from `values()`.
+pub struct LazySource<I> {
+    pub state: LazyState<I>,
+    pub mismatch: Rc<RefCell<Option<String>>>,
+}
+
+pub trait FromHandle: Sized {
+    fn convert(h: VectorSubscriber<Val>, kind: u8, early: &[MVal], mismatch: &Rc<RefCell<Option<String>>>) -> BoxS<Self>;
+}
+fn note_mismatch(values: &Vector<Val>, early: &[MVal], mismatch: &Rc<RefCell<Option<String>>>) {
+    let late: Vec<MVal> = values.iter().map(|v| v.m()).collect();
+    if late != early {
+        *mismatch.borrow_mut() = Some(format!("values() at subscription gave {:?} but a later into_values_and_stream gave {:?}", early, late));
+    }
+}
+impl FromHandle for Diff {
+    fn convert(h: VectorSubscriber<Val>, kind: u8, early: &[MVal], mismatch: &Rc<RefCell<Option<String>>>) -> BoxS<Self> {
+        if kind == 1 {
+            Box::pin(h.into_stream())
+        } else {
+            let (values, s) = h.into_values_and_stream();
+            note_mismatch(&values, early, mismatch);
+            Box::pin(s)
+        }
+    }
+}
+impl FromHandle for Vec<Diff> {
+    fn convert(h: VectorSubscriber<Val>, kind: u8, early: &[MVal], mismatch: &Rc<RefCell<Option<String>>>) -> BoxS<Self> {
+        if kind == 1 {
+            Box::pin(h.into_batched_stream())
+        } else {
+            let (values, s) = h.into_values_and_batched_stream();
+            note_mismatch(&values, early, mismatch);
+            Box::pin(s)
+        }
+    }
+}
+
+impl<I: FromHandle + 'static> Stream for LazySource<I> {
+    type Item = I;
+    fn poll_next(mut self: Pin<&mut Self>, cx: &mut Context<'_>) -> Poll<Option<I>> {
+        if let LazyState::Handle(..) = self.state {
+            let LazyState::Handle(h, kind, early) = std::mem::replace(&mut self.state, LazyState::Empty) else { unreachable!() };
+            let s = I::convert(h, kind, &early, &self.mismatch);
+            self.state = LazyState::Stream(s);
+        }
+        match &mut self.state {
+            LazyState::Stream(s) => s.as_mut().poll_next(cx),
+            _ => Poll::Ready(None),
+        }
+    }
+}
